@@ -290,7 +290,7 @@ def plan(tier, rng, sl, nslices, stats):
     for i in range(cfg["random"]):
         k = i % 6
         if k == 0:
-            c = gfa.random_case(rng, max_states=4, max_syms=3, kinds=("enfa",), vcs=["int", "str"])
+            c = gfa.random_case(rng, max_states=4, max_syms=3, kinds=("enfa",), vcs=["int", "str", "binary"])
             c["graph_names"] = rng.random() < 0.3
             c["isolated"] = rng.random() < 0.25
             yield {"kind": "fa", "fa": c}
